@@ -99,8 +99,10 @@ func VerifC14_claim_deposits_msg() {
 		return
 	}
 	ndReach("all-claimed")
-	if n == 2 {
-		ndAssert(ids[0] != ids[1], "a-deposit-id-listed-twice-is-not-claimed-twice")
+	for i := 0; i < n; i++ {
+		for j := 0; j < i; j++ {
+			ndAssert(ids[i] != ids[j], "a-deposit-id-listed-twice-is-not-claimed-twice")
+		}
 	}
 	wantMint, wantTips := math.ZeroInt(), math.ZeroInt()
 	for i := 0; i < n; i++ {
